@@ -24,7 +24,7 @@ from collections import OrderedDict
 from multiprocessing import Pool
 
 from .. import tlc, upj
-from ..common import MachineryError, time_limit, ImplTimeout, call_limited
+from ..common import MachineryError, time_limit, ImplTimeout
 from ..upj import E, BV, OV, UNDEF
 
 COMPILERS = {
@@ -487,8 +487,15 @@ def _site(ex):
 EMPTY_M = {"name": "", "types": [], "objects": [], "env": [], "agents": [], "goals": []}
 
 
+_TAINTED = False  # this process saw an asynchronous ImplTimeout inside library code: its global state is suspect
+LIMIT = 90  # seconds per phase; tiny problems take milliseconds, so only a looping mutant (or a dead machine) gets here
+
+
 def compile_one(job):
+    global _TAINTED
     cid, D, cname = job
+    if _TAINTED:
+        return {"cid": cid, "comp": cname, "D": D, "skip": "RETRY", "raised": "none", "detail": ""}
     import importlib
     from unified_planning.engines.mixins.compiler import CompilationKind
     from unified_planning.plans import ActionInstance
@@ -501,8 +508,10 @@ def compile_one(job):
                 pb = build_ma(D)
                 return pb, p_ma(pb)
 
-            problem, MP = call_limited(_build, 60, 10)
+            with time_limit(LIMIT):
+                problem, MP = _build()
         except ImplTimeout:
+            _TAINTED = True
             rec["skip"] = "build-timeout"
             return rec
         except Exception as ex:
@@ -518,8 +527,10 @@ def compile_one(job):
             rec["skip"] = "unsupported-kind"
             return rec
         try:
-            res = call_limited(lambda: Cc().compile(problem, ckind), 40, 8)
+            with time_limit(LIMIT):
+                res = Cc().compile(problem, ckind)
         except ImplTimeout:
+            _TAINTED = True
             rec["raised"] = "TIMEOUT"
             return rec
         except Exception as ex:
@@ -539,7 +550,7 @@ def compile_one(job):
         rec["qinit"] = init_vector(q, MQ)
         rec["nstates"] = nstates(MQ)
         try:
-            with time_limit(120):
+            with time_limit(LIMIT):
                 for g in ground_actions_ma(MQ):
                     ag = q.agent(g["agent"])
                     qa = ag.action(g["a"])
@@ -553,6 +564,7 @@ def compile_one(job):
                         row["pargs"] = [upj.p_const(x) for x in b.actual_parameters]
                     rec["back"].append(row)
         except ImplTimeout:
+            _TAINTED = True
             rec["raised"] = "TIMEOUT-mapback"
         except Exception as ex:
             rec["raised"] = "MAPBACK-" + type(ex).__name__
@@ -637,15 +649,29 @@ def judge(ctx, recs, label, workers=8):
 
 
 def compile_all(jobs):
-    """every compilation in its own forked process: a time-out (ImplTimeout is raised asynchronously, inside
-    library code) or a mutant must not leave the global Environment's walkers in a state that poisons the
-    compilations that follow, and every compilation starts from the same pristine Environment"""
+    """compile every job in a pool of 8 forked workers.  Everything heavy is initialised once in the parent
+    and inherited: the global Environment (its Factory imports every engine module, tarski included -- under
+    load that alone takes tens of seconds, and a time-out in the middle of THAT import leaves half-initialised
+    modules behind) and the two compiler modules.  No problem is ever built in the parent.  A worker that saw
+    an asynchronous ImplTimeout (raised inside library code, e.g. by a looping mutant) no longer trusts its
+    global state: it hands its remaining jobs back (skip = RETRY) and they are compiled in fresh processes."""
     import importlib
+    import unified_planning as up
+    import unified_planning.plans  # noqa: F401
+    import unified_planning.model.multi_agent  # noqa: F401
 
+    up.environment.get_environment()
     for mod, _, _ in COMPILERS.values():
-        importlib.import_module(mod)  # imported once here, inherited by the forked workers
-    with Pool(8, maxtasksperchild=1) as pool:
-        return pool.map(compile_one, jobs, chunksize=1)
+        importlib.import_module(mod)
+    with Pool(8, maxtasksperchild=60) as pool:
+        recs = pool.map(compile_one, jobs, chunksize=2)
+    again = [i for i, r in enumerate(recs) if r["skip"] == "RETRY"]
+    if again:
+        with Pool(8, maxtasksperchild=1) as pool:
+            redo = pool.map(compile_one, [jobs[i] for i in again], chunksize=1)
+        for i, r in zip(again, redo):
+            recs[i] = r
+    return recs
 
 
 def run(ctx):
